@@ -1,0 +1,228 @@
+// MIT License
+//
+// Copyright (c) 2022-2026 GoAkt Team
+//
+// Permission is hereby granted, free of charge, to any person obtaining a copy
+// of this software and associated documentation files (the "Software"), to deal
+// in the Software without restriction, including without limitation the rights
+// to use, copy, modify, merge, publish, distribute, sublicense, and/or sell
+// copies of the Software, and to permit persons to whom the Software is
+// furnished to do so, subject to the following conditions:
+//
+// The above copyright notice and this permission notice shall be included in all
+// copies or substantial portions of the Software.
+//
+// THE SOFTWARE IS PROVIDED "AS IS", WITHOUT WARRANTY OF ANY KIND, EXPRESS OR
+// IMPLIED, INCLUDING BUT NOT LIMITED TO THE WARRANTIES OF MERCHANTABILITY,
+// FITNESS FOR A PARTICULAR PURPOSE AND NONINFRINGEMENT. IN NO EVENT SHALL THE
+// AUTHORS OR COPYRIGHT HOLDERS BE LIABLE FOR ANY CLAIM, DAMAGES OR OTHER
+// LIABILITY, WHETHER IN AN ACTION OF CONTRACT, TORT OR OTHERWISE, ARISING FROM,
+// OUT OF OR IN CONNECTION WITH THE SOFTWARE OR THE USE OR OTHER DEALINGS IN THE
+// SOFTWARE.
+
+//go:build verif
+
+package actor
+
+import (
+	"context"
+	"time"
+)
+
+// This file is compiled only with the "verif" build tag. It gives an external
+// model-based verification harness read-only projections of the reliable
+// delivery controllers' state and constructors for their private timer
+// messages. Every accessor must be called on the controller's own goroutine
+// (from a verifhook handler) or while the controller is idle.
+
+// VerifProducerControllerState is a scalar projection of producerController.
+type VerifProducerControllerState struct {
+	SessionID              string
+	CurrentSeq             int64
+	ConfirmedSeq           int64
+	DemandUpTo             int64
+	UnconfirmedSeqs        []int64
+	UnconfirmedIDs         []string
+	Registered             bool
+	RegistrationNonce      string
+	Handshake              int
+	Token                  string
+	PendingMessageID       string
+	PendingSeq             int64
+	LastCompletedToken     string
+	LastCompletedMessageID string
+	Failed                 bool
+}
+
+// VerifState projects the controller state. Verification harness only.
+func (x *producerController) VerifState() VerifProducerControllerState {
+	state := VerifProducerControllerState{
+		SessionID:              x.sessionID,
+		CurrentSeq:             x.currentSeq,
+		ConfirmedSeq:           x.confirmedSeq,
+		DemandUpTo:             x.demandUpTo,
+		Registered:             x.consumerController != nil,
+		RegistrationNonce:      x.registrationNonce,
+		Handshake:              x.handshake,
+		Token:                  x.token,
+		PendingMessageID:       x.pendingMessageID,
+		PendingSeq:             x.pendingSeq,
+		LastCompletedToken:     x.lastCompletedToken,
+		LastCompletedMessageID: x.lastCompletedMessageID,
+		Failed:                 x.failed,
+	}
+
+	for _, message := range x.unconfirmed {
+		state.UnconfirmedSeqs = append(state.UnconfirmedSeqs, message.Seq())
+		state.UnconfirmedIDs = append(state.UnconfirmedIDs, message.id())
+	}
+
+	return state
+}
+
+// VerifTick returns the timer message of the current incarnation.
+func (x *producerController) VerifTick() any {
+	return &producerControllerTick{generation: x.generation}
+}
+
+// VerifConsumerControllerState is a scalar projection of consumerController.
+type VerifConsumerControllerState struct {
+	Resolved          bool
+	SessionID         string
+	RegistrationNonce string
+	ExpectedSeq       int64
+	ConfirmedSeq      int64
+	RequestUpToSeq    int64
+	BufferSeqs        []int64
+	BufferIDs         []string
+	InFlightSeq       int64
+	InFlightID        string
+	SawValidTraffic   bool
+	GapLimited        bool
+	Window            int
+	Failed            bool
+}
+
+// VerifState projects the controller state. Verification harness only.
+func (x *consumerController) VerifState() VerifConsumerControllerState {
+	state := VerifConsumerControllerState{
+		Resolved:          x.producerController != nil,
+		SessionID:         x.sessionID,
+		RegistrationNonce: x.registrationNonce,
+		ExpectedSeq:       x.expectedSeq,
+		ConfirmedSeq:      x.confirmedSeq,
+		RequestUpToSeq:    x.requestUpToSeq,
+		SawValidTraffic:   x.sawValidTraffic,
+		GapLimited:        !x.lastGapRequest.IsZero() && time.Since(x.lastGapRequest) < x.resendInterval,
+		Window:            x.window,
+		Failed:            x.failed,
+	}
+
+	for _, message := range x.buffer {
+		state.BufferSeqs = append(state.BufferSeqs, message.Seq())
+		state.BufferIDs = append(state.BufferIDs, message.MessageID())
+	}
+
+	if x.inFlight != nil {
+		state.InFlightSeq = x.inFlight.Seq()
+		state.InFlightID = x.inFlight.MessageID()
+	}
+
+	return state
+}
+
+// VerifTick returns the timer message of the current incarnation.
+func (x *consumerController) VerifTick() any {
+	return &consumerControllerTick{generation: x.generation}
+}
+
+// VerifElapseGapLimit lets the gap-request rate limit expire, as the passage
+// of one resend interval would.
+func (x *consumerController) VerifElapseGapLimit() {
+	x.lastGapRequest = time.Time{}
+}
+
+// VerifBindingState is a scalar projection of one work-pulling worker binding.
+type VerifBindingState struct {
+	EndpointName      string
+	Controller        *PID
+	RegistrationNonce string
+	CurrentSeq        int64
+	ConfirmedSeq      int64
+	DemandUpTo        int64
+	UnconfirmedSeqs   []int64
+	UnconfirmedIDs    []string
+}
+
+// VerifWorkPullingState is a scalar projection of workPullingProducerController.
+type VerifWorkPullingState struct {
+	SessionID              string
+	StoreSeq               int64
+	PendingIDs             []string
+	Bindings               []VerifBindingState
+	NextWorker             int
+	Handshake              int
+	Token                  string
+	PendingMessageID       string
+	PendingStoreSeq        int64
+	LastCompletedToken     string
+	LastCompletedMessageID string
+	Failed                 bool
+}
+
+// VerifState projects the controller state; bindings are listed in
+// registration (round-robin) order. Verification harness only.
+func (x *workPullingProducerController) VerifState() VerifWorkPullingState {
+	state := VerifWorkPullingState{
+		SessionID:              x.sessionID,
+		StoreSeq:               x.storeSeq,
+		NextWorker:             x.nextWorker,
+		Handshake:              x.handshake,
+		Token:                  x.token,
+		PendingMessageID:       x.pendingMessageID,
+		PendingStoreSeq:        x.pendingStoreSeq,
+		LastCompletedToken:     x.lastCompletedToken,
+		LastCompletedMessageID: x.lastCompletedMessageID,
+		Failed:                 x.failed,
+	}
+
+	for _, work := range x.pending {
+		state.PendingIDs = append(state.PendingIDs, work.messageID)
+	}
+
+	for _, name := range x.bindingOrder {
+		binding := x.bindings[name]
+		if binding == nil {
+			continue
+		}
+
+		projected := VerifBindingState{
+			EndpointName:      binding.endpointName,
+			Controller:        binding.controller,
+			RegistrationNonce: binding.registrationNonce,
+			CurrentSeq:        binding.currentSeq,
+			ConfirmedSeq:      binding.confirmedSeq,
+			DemandUpTo:        binding.demandUpTo,
+		}
+
+		for _, message := range binding.unconfirmed {
+			projected.UnconfirmedSeqs = append(projected.UnconfirmedSeqs, message.workerSeq)
+			projected.UnconfirmedIDs = append(projected.UnconfirmedIDs, message.messageID)
+		}
+
+		state.Bindings = append(state.Bindings, projected)
+	}
+
+	return state
+}
+
+// VerifTick returns the timer message of the current incarnation.
+func (x *workPullingProducerController) VerifTick() any {
+	return &producerControllerTick{generation: x.generation}
+}
+
+// VerifReliableCompanion resolves the controller companion of a local reliable
+// endpoint. Verification harness only.
+func VerifReliableCompanion(ctx context.Context, system ActorSystem, endpointName string, role ReliableControllerRole) (*PID, error) {
+	return system.(*actorSystem).resolveReliableCompanion(ctx, endpointName, role, nil)
+}
